@@ -754,13 +754,16 @@ class Container:
         if not isinstance(quantity, str):
             raise TypeError("Quantity must be a str.")
 
-        if round(Unit.parse_quantity(quantity)[0], config.internal_precision) < 0:
-            raise ValueError("Quantity must be non-negative.")
         volume_to_add = Unit.convert(source, quantity, config.volume_storage_unit)
         if source.is_enzyme():
             amount_to_add = Unit.convert(source, quantity, 'U')
         else:
             amount_to_add = Unit.convert(source, quantity, config.moles_storage_unit)
+        # negative is what would be stored as a negative amount (the storage units decide, not litres or grams)
+        if (Unit.parse_quantity(quantity)[0] < 0 and
+                (round(amount_to_add, config.internal_precision) < 0 or
+                 round(volume_to_add, config.internal_precision) < 0)):
+            raise ValueError("Quantity must be non-negative.")
         if round(self.volume + volume_to_add, config.internal_precision) > self.max_volume:
             raise ValueError("Exceeded maximum volume")
         self.volume = round(self.volume + volume_to_add, config.internal_precision)
